@@ -622,7 +622,8 @@ theorem C03_roots_block_validate_iff (t : Table) (nfc : NFC) (H : Bytes → Byte
 
 example : blockValidate allSchemas asciiNFC (fun x => x)
     { version := 2, timestamp := 0, height := 1, previousBlockID := List.replicate 32 0,
-      generatorAddress := List.replicate 20 0, transactionRoot := [], assetRoot := [], eventRoot := [], stateRoot := [],
+      generatorAddress := List.replicate 20 0, transactionRoot := [], assetRoot := [], eventRoot := [],
+      stateRoot := List.replicate 32 0,
       maxHeightPrevoted := 0, maxHeightGenerated := 0, impliesMaxPrevotes := false, validatorsHash := [],
       aggregateCommit := none, signature := List.replicate 64 0 } [] [] = true := by decide +kernel
 
